@@ -52,15 +52,17 @@ func StoreSimConfig(prop string, r *Rand, tier string) map[string]int64 {
 	case "C04":
 		c["w_block"], c["w_reorg"], c["w_restart"], c["w_check"], c["w_fault"] = 60, int64(r.Range(10, 30)), int64(r.Range(0, 10)), 5, 0
 	case "C07":
-		c["w_block"], c["w_reorg"], c["w_restart"], c["w_check"], c["w_fault"] = 30, int64(r.Range(0, 8)), int64(r.Range(0, 10)), 3, int64(r.Range(25, 60))
+		// plain reorg ops belong to C04; C07 only uses Reorg as the rewind step of the per-position enumeration
+		c["w_block"], c["w_reorg"], c["w_restart"], c["w_check"], c["w_fault"] = 30, 0, int64(r.Range(0, 10)), 3, int64(r.Range(25, 60))
 		c["fault_free"] = 0
 		if r.Bool(15) {
 			c["fault_free"] = 1 // separate fault-free batch: relaxation under faults must hide no ordinary bug
 			c["w_fault"] = 0
 		}
 	case "C08":
-		c["w_block"], c["w_reorg"], c["w_restart"], c["w_check"], c["w_fault"] = 70, int64(r.Range(0, 15)), int64(r.Range(0, 10)), 3, 0
+		c["w_block"], c["w_reorg"], c["w_restart"], c["w_check"], c["w_fault"] = 70, int64(r.Range(0, 15)), int64(r.Range(0, 10)), 0, 0
 		c["heavy"] = 1
+		c["proofs_only"] = 1 // C08 reports proof / leaf / root oracles only (twin equality is C04's)
 		c["kind"] = int64(r.Intn(2)) // the two stores that own trees
 		c["max_events"] = int64(r.Range(2, 6))
 	}
@@ -214,8 +216,10 @@ func RunStoreSim(prop string, tr *Trace, sc *Script, rec *Recorder, scratch stri
 		}
 		rec.State(w.stateDigest())
 	}
-	if v := w.twinCheck(heavy); v != nil {
-		return v
+	if cfg["proofs_only"] == 0 {
+		if v := w.twinCheck(heavy); v != nil {
+			return v
+		}
 	}
 	return refCheck("end of run")
 }
